@@ -175,10 +175,10 @@ N, M0, M2 = 2, 2, 1
 
 
 def energy_quadratic(x, p):
-    """f = x.A x/2 - x.B0 p0 - x.B2 p2 ; A, B0, B2 travel in the app_data slot so that they are traced (symbolic)"""
-    a, B0, B2 = p[3]
+    """f = x.A x/2 - x.B0 p0 - x.B2 p2 - x.q ; A, B0, B2, q travel in the app_data slot so that they are traced (symbolic)"""
+    a, B0, B2, q = p[3]
     A = jnp.array([[a[0], a[1]], [a[1], a[2]]])
-    return 0.5 * x @ (A @ x) - x @ (B0 @ p[0]) - x @ (B2 @ p[2])
+    return 0.5 * x @ (A @ x) - x @ (B0 @ p[0]) - x @ (B2 @ p[2]) - x @ q
 
 
 def energy_cubic(x, p):
@@ -189,12 +189,12 @@ def energy_cubic(x, p):
             - (1.0 + c[2] * x[1]) * (x @ (B0 @ p[0])) - (x @ B2[:, 0]) * p[2][0] ** 2)
 
 
-def oracle(kind, x, p, a, B0, B2, c):
+def oracle(kind, x, p, a, B0, B2, c, q=0.0):
     """independent hand-derived gradient, Hessian and parameter Jacobians of the two families (NP ops on proxies/floats)"""
     A = onp.array([[a[0], a[1]], [a[1], a[2]]], dtype=object)
     b0 = NP.dot(B0, p[0])
     if kind == 'quadratic':
-        g = NP.dot(A, x) - b0 - NP.dot(B2, p[2])
+        g = NP.dot(A, x) - b0 - NP.dot(B2, p[2]) - q
         H = A
         dgdp0 = lambda w: -NP.dot(B0, w)
         dgdp2 = lambda w: -NP.dot(B2, w)
@@ -233,7 +233,7 @@ def _draw_ws_inputs(ex, kind):
 
 
 def _examples(kind):
-    app = (jnp.array([2.0, 0.3, 1.0]), jnp.ones((N, M0)), jnp.ones((N, M2))) + ((jnp.ones(3),) if kind == 'cubic' else ())
+    app = (jnp.array([2.0, 0.3, 1.0]), jnp.ones((N, M0)), jnp.ones((N, M2))) + ((jnp.ones(3),) if kind == 'cubic' else (jnp.ones(N),))
     O = _objmod()
     return jnp.array([0.3, 0.2]), O.Params(jnp.ones(M0), jnp.ones(1), jnp.ones(M2), app, 0.0, None)
 
@@ -246,13 +246,19 @@ def make_ws_harness(index, kind, use_default_index=False):
         O = _objmod()
         mod = px.load_module('optimism/WarmStart.py')
         a, B0, B2, c, x, pold, pnew = _draw_ws_inputs(ex, kind)
-        app = (a, B0, B2) + ((c,) if kind == 'cubic' else ())
         t_old, t_new = ex.real('t_old'), ex.real('t_new')
+        if kind == 'cubic':
+            app = (a, B0, B2, c)
+        else:
+            # the dead load q is CHOSEN such that x is an equilibrium at the old parameters: every quadratic energy with
+            # equilibrium x_old is a member (q = A x - B0 p0_old - B2 p2_old), and the landing goal becomes an unconditional identity
+            q = oracle(kind, x, (pold[0], pold[1], pold[2]), a, B0, B2, c)[0]
+            app = (a, B0, B2, q)
         p_old = O.Params(pold[0], pold[1], pold[2], app, t_old, None)
         p_new = O.Params(pnew[0], pnew[1], pnew[2], app, t_new, None)     # every differentiable slot changes; only `index` may be used
         xe, pe = _examples(kind)
         obj = make_hybrid(f, xe, pe, p_old)
-        g_old, H, dgdp = oracle(kind, x, p_old, a, B0, B2, c)
+        g_old, H, dgdp = oracle(kind, x, p_old, a, B0, B2, c, q=(app[3] if kind == 'quadratic' else 0.0))
         # the Hessian at the current state is SPD (the linear system has exactly one solution)
         ex.assume(H[0, 0] > 0)
         ex.assume(H[0, 0] * H[1, 1] - H[0, 1] * H[0, 1] > 0)
@@ -292,20 +298,15 @@ def make_ws_harness(index, kind, use_default_index=False):
         ex.goal('objective_parameters_untouched', Holds(obj.p is p_old))
         ex.goal('start_point_untouched', Eq(U(x), U(x_in)))
         if kind == 'quadratic':
-            # equilibrium at the old parameters => equilibrium at the new value of slot `index` (others as before), through the REAL gradient
+            # x_old is an equilibrium at the old parameters (by the choice of q) => x_old + dx is one at the new value of slot
+            # `index` (the other slots as before); both gradients through the REAL Objective.grad_x
+            sc = onp.max(onp.abs(onp.asarray(seen['b'], dtype=float))) + 1.0 if not ex.symbolic else 1.0
             g_code_old = obj.grad_x(x, p_old)
-            ex.goal('code_gradient_matches_oracle', Eq(U(onp.asarray(g_code_old, dtype=object)), U(g_old)))
+            ex.goal('old_state_is_an_equilibrium', Eq(U(onp.asarray(g_code_old, dtype=object)), [0.0] * N, scale=sc))
             p_upd = O.param_index_update(p_old, index, p_new[index])
             g_new = obj.grad_x(x + dx, p_upd)
-            if ex.symbolic:
-                eqm = z3.And(*[c_.z for c_ in zeq(g_old, onp.zeros(N))])
-            else:
-                sc = float(onp.max(onp.abs(onp.asarray(seen['b'], dtype=float)))) + float(onp.max(onp.abs(NP.dot(H, x))))
-                eqm = bool(onp.all(onp.abs(onp.asarray(g_old, dtype=float)) <= 1e-9 * sc))
-            ex.goal('lands_on_the_new_solution', Eq(U(onp.asarray(g_new, dtype=object)), [0.0] * N, when=eqm),
+            ex.goal('lands_on_the_new_solution', Eq(U(onp.asarray(g_new, dtype=object)), [0.0] * N, scale=sc),
                     info='grad f(x_old + dx; p_new) for an equilibrium x_old of a quadratic energy')
-            ex.goal('gradient_change_cancelled_by_increment', Eq(U(onp.asarray(g_new, dtype=object)), U(onp.asarray(g_code_old, dtype=object))),
-                    info='grad f(x + dx; p_new) = grad f(x; p_old) for EVERY x of a quadratic energy')
     return fn
 
 
@@ -314,7 +315,7 @@ def make_ws_bad_index_harness(index):
         O = _objmod()
         mod = px.load_module('optimism/WarmStart.py')
         a, B0, B2, c, x, pold, pnew = _draw_ws_inputs(ex, 'quadratic')
-        app = (a, B0, B2)
+        app = (a, B0, B2, ex.vec('q', N))
         p_old = O.Params(pold[0], pold[1], pold[2], app, ex.real('t_old'), ex.vec('dyn_old', 1))
         p_new = O.Params(pnew[0], pnew[1], pnew[2], app, ex.real('t_new'), ex.vec('dyn_new', 1))
         xe, pe = _examples('quadratic')
@@ -351,7 +352,7 @@ def o1(h):
               O.Objective.hessian_vec, O.Objective.apply_precond, O.param_index_update,
               'jaxprs of Objective.jac_xp_vec / jac_xp2_vec / hess_vec / grad_x (jit closures built by the real Objective.__init__, traced per run)')
     h.bounds('n=2 unknowns, p0 in R^2, p1 in R^1, p2 in R^1, time scalar: all symbolic, old and new values differ in EVERY slot; '
-             'quadratic family x.A x/2 - x.B0 p0 - x.B2 p2 (A sym 2x2, B0 2x2, B2 2x1 symbolic) and a cubic family '
+             'quadratic family x.A x/2 - x.B0 p0 - x.B2 p2 - x.q (A sym 2x2, B0 2x2, B2 2x1 symbolic; q such that x_old is an equilibrium at p_old) and a cubic family '
              '(+ c0 (x0^3+x1^3) + c1 x0^2 x1, coupling -(1+c2 x1) x.B0 p0 - x.B2 p2^2); Hessian at the old state SPD; index in 0..5')
     h.assume_note('stub: scipy.sparse.linalg.cg returns dx with L dx = b exactly and exit code 0 (accuracy of scipy cg is outside the claim); LinearOperator = (shape, matvec) record',
                   'stub: SparseCholesky (sksparse absent) replaced by the identity preconditioner on the objective',
@@ -361,7 +362,7 @@ def o1(h):
     for idx in (0, 2):
         kinds = ('quadratic', 'cubic')
         for kind in kinds:
-            goals = WS_GOALS + (['lands_on_the_new_solution', 'code_gradient_matches_oracle'] if kind == 'quadratic' else [])
+            goals = WS_GOALS + (['lands_on_the_new_solution', 'old_state_is_an_equilibrium'] if kind == 'quadratic' else [])
             px.run_px(h, 'ws[index=%d,%s]' % (idx, kind), make_ws_harness(idx, kind), cap=40, div_mode='goal', sqrt_mode='goal', expect_goals=goals)
     px.run_px(h, 'ws[default index,quadratic]', make_ws_harness(0, 'quadratic', use_default_index=True), cap=40, div_mode='goal', sqrt_mode='goal',
               expect_goals=WS_GOALS)
